@@ -34,6 +34,11 @@ void drv_c11(int tier, unsigned long seed, const char *extra) {
         callf("mpz_set_ui", 1, u); callf("mpz_cmp", 0, 1); callf("mpz_cmpabs", 0, 1); callf("mpz_cmp_ui", 0, u); callf("mpz_cmpabs_ui", 0, u); callf("mpz_cmp_ui", 0, u + 1); callf("mpz_cmp_ui", 0, u - 1);
         callf("mpz_set_si", 1, si); callf("mpz_cmp", 0, 1); callf("mpz_cmp_si", 0, si); callf("mpz_cmp_si", 0, -si); callf("mpz_cmp_si", 0, si + 1);
         callf("mpz_set_ux", 1, u); callf("mpz_set_sx", 1, si); callf("mpz_clear", 2); callf("mpz_init_set_ui", 2, u); callf("mpz_clear", 2); callf("mpz_init_set_si", 2, si); }
+      /* the value against every boundary long / unsigned long (not only those derived from itself) */
+      { static const int64_t bs[] = {0, 1, -1, 2, -2, 32767, -32768, 65535, 2147483647L, -2147483648L, 4294967295L, 0x7fffffffffffffffL, -0x7fffffffffffffffL - 1, -0x7fffffffffffffffL, 0x4000000000000000L, -0x4000000000000001L};
+        static const uint64_t bu[] = {0, 1, 2, 65535, 65536, 0xffffffffUL, 0x100000000UL, 0x7fffffffffffffffUL, 0x8000000000000000UL, 0x8000000000000001UL, 0xfffffffffffffffeUL, 0xffffffffffffffffUL};
+        for (j = 0; j < 16; j++) callf("mpz_cmp_si", 0, bs[j]);
+        for (j = 0; j < 12; j++) { callf("mpz_cmp_ui", 0, bu[j]); callf("mpz_cmpabs_ui", 0, bu[j]); } }
       for (j = 0; j < NDBL + 4; j++) { double dv = dbl_of(j);
         if (sh.pure && (j % 5 || fabs(dv) > 1e40 || (dv != 0 && fabs(dv) < 1e-40))) continue;       /* pure TLA+ arithmetic: moderate exponents only */
         callf("mpz_cmp_d", 0, dv); callf("mpz_cmpabs_d", 0, dv);
